@@ -1166,3 +1166,19 @@ package solver
 //@ func New
 //@   trusted
 //@   ensures nn: result != nil
+
+// ---------------------------------------------------------------- cutting planes: conversions (C14)
+
+// (*pbSet).clause: the stored constraint built from a derived pbSet means the same thing: for every
+// assignment it holds exactly when the pbSet does (zero entries dropped, negative entries become
+// negated literals with the absolute weight).
+//@ func (*pbSet).clause
+//@   ghost A asg
+//@   requires wf: pb != nil && 1 <= pb.card && pb.card <= 1073741824 && len(pb.weights) <= 1073741823
+//@   ensures  sem: holds(result, A) <==> pbval(pb, A)
+//@   ensures  same: pb.card == old(pb.card) && pb.weights == old(pb.weights) && forall(v, 0, len(pb.weights), pb.weights[v] == old(pb.weights[v]))
+//@   loop 1
+//@     invariant idx:  0 <= rangei && rangei <= len(pb.weights) && len(lits) == len(weights) && len(lits) <= rangei
+//@     invariant own:  grown(lits) && grown(weights) && fresh(lits) && fresh(weights)
+//@     invariant same: pb.card == old(pb.card) && pb.weights == old(pb.weights) && forall(v, 0, len(pb.weights), pb.weights[v] == old(pb.weights[v]))
+//@     invariant sum:  psum(lits, weights, A, len(lits)) == vsum(pb.weights, A, rangei)
